@@ -48,7 +48,7 @@ CFG = {
     "gen_timeout": 900,
     "rule": "cases: (dec) all 256 header bytes x total lengths 0..81 (thorough 0..120) with random hash bytes and var-nat shaped pointer "
             "payloads, every valid Shelley-era encoding with trailing bytes and truncated, pointer fields padded / unterminated / beyond "
-            "u64 / exactly 2^64-1 and 2^64 / missing, 33 canonical and non-canonical / broken variants of Byron addresses (key order, "
+            "u64 / exactly 2^64-1 and 2^64 / missing, 35 canonical and non-canonical / broken variants of Byron addresses (key order, "
             "repeated and unknown keys, wide heads, chunked strings, bad terminators, wrong CRC / tag / array lengths, bytes after the "
             "tuple and after the address, declared lengths beyond the input and >= 2^63), header 0x80..0x8f; each run through "
             "Address::from_bytes, the accessors, to_bytes and back, TransactionOutput::from_bytes (embedded) and its re-serialisation, "
